@@ -2690,12 +2690,16 @@ class NetCDFWrite(IOWrite):
             data = self.implementation.get_data(cfvar, None)
             original_ncdimensions = ncdimensions
 
-        # Update the 'seen' dictionary
-        g["seen"][id(cfvar)] = {
-            "variable": cfvar,
-            "ncvar": ncvar,
-            "ncdims": original_ncdimensions,
-        }
+        # Update the 'seen' dictionary. Data and domain variables are
+        # not registered: a metadata construct of a later field must
+        # never be stored in (and so hide) another field's data
+        # variable.
+        if not (data_variable or domain_variable):
+            g["seen"][id(cfvar)] = {
+                "variable": cfvar,
+                "ncvar": ncvar,
+                "ncdims": original_ncdimensions,
+            }
 
         # Don't ever write any variables in the 'dry run' read iteration of an
         # append-mode write (only write in the second post-dry-run iteration).
